@@ -1145,6 +1145,8 @@ class KafkaClient(object):
         # The request was not handled, likely because no broker metadata has
         # loaded yet (or all broker connections have failed). Fall back to
         # boostrapping.
+        if self._closing:
+            raise CancelledError(message="{} was closed".format(self))
         returnValue((yield self._send_bootstrap_request(request)))
 
     @inlineCallbacks
@@ -1179,12 +1181,18 @@ class KafkaClient(object):
         hostports = list(self._bootstrap_hosts)
         random.shuffle(hostports)
         for host, port in hostports:
+            if self._closing:
+                raise CancelledError(message="{} was closed while bootstrapping".format(self))
             ep = self._endpoint_factory(self.reactor, host, port)
             try:
                 protocol = yield ep.connect(_bootstrapFactory)
             except Exception as e:
                 log.debug("%s: bootstrap connect to %s:%s -> %s", self, host, port, e)
                 continue
+
+            if self._closing:
+                protocol.transport.loseConnection()
+                raise CancelledError(message="{} was closed while bootstrapping".format(self))
 
             try:
                 response = yield protocol.request(request).addTimeout(self.timeout, self.reactor)
